@@ -103,8 +103,9 @@ class C08(Prop):
                "float evaluation of (x - origin)/spot for four-decimal coordinates is within 1e-9 of the exact quotient "
                "(theorem pixel_index_robust covers any perturbation below 5e-7); float sample/event times differ from the "
                "exact rationals by far less than the generated margin (>= 0.1 ms) between a sample and a laser event"]
-    assumptions = ["ground truth is demanded only where the property's text defines it: every imported line is recorded "
-                   "completely (one sample per pixel) or not at all, selected patterns share one spot size and pixel grid "
+    assumptions = ["ground truth is demanded only where the property's text defines it: one sample per pixel; every imported line "
+                   "is recorded completely, not at all, or from some pixel to its end (late start of the signal = positive "
+                   "delay); signals that stop in the middle of a line are not generated; selected patterns share one spot size and pixel grid "
                    "and do not overlap; other cases are counted as undetermined",
                    "without squeeze the result is compared as the set of non-NaN pixels (row, column, element values) from "
                    "the reported origin; the NaN margin of the canvas is compared against the model only"]
@@ -194,12 +195,10 @@ class C08(Prop):
         total = cuts[-1]
         window = rng.choice(["full", "full", "late", "early", "both", "any"])
         lo, hi = 0, total
-        if window in ("late", "both"):
-            lo = rng.choice(cuts[:-1])
-        if window in ("early", "both"):
-            hi = rng.choice([c for c in cuts if c > lo])
-        if window == "any":
-            lo = rng.choice(cuts[:-1])
+        if window in ("late", "both", "any"):
+            # a positive delay of any size: the signal may begin in the middle of a line
+            lo = rng.choice(cuts[:-1]) if rng.random() < 0.5 else rng.randrange(total)
+        if window in ("early", "both", "any"):
             hi = rng.choice([c for c in cuts if c > lo])
         acq["skip"], acq["take"] = lo, hi - lo
         return {"acq": acq, "sel": sel, "squeeze": rng.random() < 0.5,
@@ -233,6 +232,10 @@ class C08(Prop):
         # signal starts after the first line / ends before the last line
         yield self.simple("lr", True, 3, 4, skip=5, take=None)
         yield self.simple("bt", False, 3, 4, skip=0, take=10)
+        # signal starts in the middle of the first / second line (positive delay)
+        for d in DIRS:
+            yield self.simple(d, True, 3, 4, skip=3, take=None)
+            yield self.simple(d, False, 2, 5, skip=9, take=None)
 
     # ------------------------------------------------------------------ evaluation
     def evaluate(self, case, ctx):
@@ -326,7 +329,7 @@ class C08(Prop):
                 f.add("selpos:" + ("first" if selidx[0] == 0 else "last" if selidx[0] == len(pats) - 1 else "middle"))
         f.add("delay:" + ("neg" if delay < 0 else "zero" if delay == 0 else "pos"))
         if acq["skip"] > 0:
-            f.add("signal:late-start")
+            f.add("signal:late-start" if acq["skip"] in valid_cuts(acq, sel) else "signal:starts-mid-line")
         if acq["skip"] + acq["take"] < total_samples(acq):
             f.add("signal:early-end")
         f.add("squeeze" if case["squeeze"] else "no-squeeze")
